@@ -3,6 +3,8 @@
 package cluster
 
 import (
+	"sync/atomic"
+
 	"github.com/emitter-io/emitter/internal/event"
 	"github.com/weaveworks/mesh"
 )
@@ -21,3 +23,6 @@ func VerifNewPeer(sender mesh.Gossip, name mesh.PeerName) *Peer {
 
 // VerifFlush runs one flush of the send queue.
 func (p *Peer) VerifFlush() { p.processSendQueue() }
+
+// VerifSetActivity sets the last-activity time of the peer (seconds).
+func (p *Peer) VerifSetActivity(t int64) { atomic.StoreInt64(&p.activity, t) }
